@@ -17,7 +17,9 @@ def dbits(x):
 CFGS = c05.CFGS + ["sampleDistance=1", "szMode=SZ_BEST_SPEED;sampleDistance=1;predThreshold=1.0", "szMode=SZ_BEST_SPEED;quantization_intervals=2",
                    "szMode=SZ_BEST_SPEED;max_quant_intervals=32", "losslessCompressor=GZIP_COMPRESSOR;gzipMode=Gzip_BEST_COMPRESSION"]
 # shapes that are tiny, not aligned to the 6x6 / 6x6x6 regression blocks, or degenerate
-STRESS_SHAPES = [(21,), (22,), (23,), (5, 5), (7, 3), (3, 7), (6, 7), (13, 1, 2), (2, 2, 6), (7, 7, 7), (6, 6, 5), (1, 30), (30, 1), (2, 2, 2, 3), (3, 5, 7, 2), (37,), (4099,)]
+STRESS_SHAPES = [(21,), (22,), (23,), (5, 5), (7, 3), (3, 7), (6, 7), (13, 1, 2), (2, 2, 6), (7, 7, 7), (6, 6, 5), (1, 30), (30, 1), (2, 2, 2, 3), (3, 5, 7, 2), (37,), (4099,),
+                 # dimensions that do not split evenly into the regression kernels' blocks (early blocks one row larger than late ones)
+                 (33, 40), (35, 9), (50, 11), (100, 4), (17, 35), (40, 33), (19, 33, 5), (33, 18, 7), (7, 35, 17), (35, 35), (3, 33, 6, 7)]
 
 
 def stress_compress(rng):
